@@ -68,3 +68,9 @@ claim("C14",
       "every Response.Resources produced by the real hook for enumerated two-container tables and random pods (BE by label / annotation-only / not BE, CFS on/off, ratios none/1.0/1.5/2.0) is checked by TLC value by value against the standard conversions.",
       "Trusted: TLC, the fake client of the webhook handler. cpu <= 300000 milli, memory <= 2^28 bytes (32-bit TLC integers); dyadic ratios (exact float division); init containers / overhead not generated.",
       "DESIGN.md 5 C14")
+claim("C13",
+      "TLA+ spec PodAdmission (abstract pod; AdmitOK / MutateOK predicates; transcriptions of the validating rules incl. the priority-band mapping and of the tier translation): TLC exhaustive MC of the transcriptions against the predicates; real clusterColocationProfileValidatingPod verdicts and real mutating handleCreate outputs for enumerated + seeded random pods/profiles validated by TLC (trace validation)",
+      "TLC checks on the model that the transcribed admit rules imply the permitted QoS/priority pairs, whole-CPU LSR/LSE, batch-only-for-BE and immutability, and that the transcribed translation preserves every container's request/limit (CPU in milli), erases native entries, "
+      "keeps the summary annotation equal to the final spec and is idempotent, over an exhaustive abstract domain with boundary priorities; each real verdict (admitted => rules) and each real mutated pod (second admission after a JSON round trip included) is checked by TLC against the predicates.",
+      "Trusted: TLC, fake client with ClusterColocationProfile objects, the abstraction of the pod back to the record (field reads). One-directional admit check as the statement says; numbers < 2^31; init-container / overhead summary not judged (code TODO).",
+      "DESIGN.md 5 C13")
